@@ -11,7 +11,12 @@ from visions.types.email_address import FQDA, EmailAddress, _to_email
 from visions.types.string import String
 
 
+def _to_email_or_missing(value):
+    return value if pd.isna(value) else _to_email(value)
+
+
 @EmailAddress.register_relationship(String, pd.Series)
+@series_handle_nulls
 def string_is_email(series: pd.Series, state: dict) -> bool:
     def test_email(s):
         return pandas_apply(pandas_apply(s, _to_email), lambda x: x.local and x.fqdn)
@@ -21,7 +26,7 @@ def string_is_email(series: pd.Series, state: dict) -> bool:
 
 @EmailAddress.register_transformer(String, pd.Series)
 def string_to_email(series: pd.Series, state: dict) -> pd.Series:
-    return pandas_apply(series, _to_email)
+    return pandas_apply(series, _to_email_or_missing)
 
 
 @EmailAddress.contains_op.register
